@@ -512,7 +512,9 @@ func puppetRV(p *puppet, r *rand.Rand) {
 			}
 			prevote := r.Intn(4) == 0
 			if prevote {
-				term = cur + 1
+				// a prevote names the term the sender would campaign in: usually one ahead of the receiver, further
+				// ahead when the sender has been lingering
+				term = cur + 1 + []uint64{0, 0, 1, 4}[r.Intn(4)]
 			}
 			if r.Intn(3) != 0 {
 				p.settle()
